@@ -17,15 +17,15 @@ var secretSanitisers = map[string]bool{
 
 // generated secrets: callee -> result index holding the plaintext
 var generatedSecrets = map[string]int{
-	fnGenToken:                                2,
-	"(*ab.Sha512TokenGenerator).GenerateToken": 2,
-	"ab/otp.generateOTP":                       0,
-	"ab/otp/twofactor.GenerateRecoveryCodes":   0,
-	"ab/remember.GenerateToken":                1,
-	"ab/otp/twofactor.GenerateToken":           0,
+	fnGenToken: 2,
+	"(*ab.Sha512TokenGenerator).GenerateToken":   2,
+	"ab/otp.generateOTP":                         0,
+	"ab/otp/twofactor.GenerateRecoveryCodes":     0,
+	"ab/remember.GenerateToken":                  1,
+	"ab/otp/twofactor.GenerateToken":             0,
 	"ab/otp/twofactor/sms2fa.generateRandomCode": 0,
-	"ab/confirm.GenerateConfirmCreds":          2,
-	"ab/recover.GenerateRecoverCreds":          2,
+	"ab/confirm.GenerateConfirmCreds":            2,
+	"ab/recover.GenerateRecoverCreds":            2,
 }
 
 var submittedSecretMethods = map[string]bool{"GetPassword": true, "GetToken": true, "GetCode": true, "GetRecoveryCode": true}
